@@ -307,8 +307,14 @@ def snapshot_measures(o, f, n):
 class World:
     """The real objects a behaviour acts on, plus what the client would hold."""
 
-    def __init__(self, scratch_dir, n_override=None, rate=1.0, dt=None, F0=None, solver_kw=None):
+    def __init__(self, scratch_dir, n_override=None, rate=1.0, dt=None, F0=None, solver_kw=None, origin=0.0):
         import pydrex
+
+        # clock origin of the client: the library is called with times origin + t and the client's callables are
+        # functions of the elapsed time t (they subtract the origin themselves), so every closed form below stays a
+        # function of elapsed time.  An update over [T, T + dt] is an update over dt whatever the size of T.
+        self.origin = float(origin)
+        self.relative_to = None     # set by run_behaviours: writers spell archive paths relative to the working directory
 
         self.pydrex = pydrex
         self.dir = Path(scratch_dir)
@@ -336,6 +342,13 @@ class World:
         self.events = []
 
     # -- helpers
+    def clocked(self, getL, getx):
+        """The client's callables on the client's clock (elapsed time = clock time - origin)."""
+        if self.origin == 0.0:
+            return getL, getx
+        o = self.origin
+        return (lambda t, x: getL(t - o, x)), (lambda t: getx(t - o))
+
     def params(self, par):
         p = make_params(par)
         if self._params_obj is None:
@@ -350,6 +363,10 @@ class World:
         # spells the path, nor on whether the reader spells it like the writer did
         if op == "load":
             return str(self.dir / f"{f}.npz")
+        if self.relative_to is not None and op == "save":
+            # the client works in a directory of its own (entered after pydrex was imported) and names the archive
+            # relatively when it writes; readers use the absolute spelling
+            return os.path.relpath(self.dir / f"{f}.npz", self.relative_to)
         if op == "from_file":
             return str(self.dir) + "//" + f"{f}.npz"
         return str(self.dir) + "/./" + f"{f}.npz"
@@ -416,15 +433,16 @@ class World:
         m = self.minerals[name]
         dt = self.dt
         t0 = self.t[name]
-        getL, getx = flow_callables(fl, self.rate)
+        getL, getx = self.clocked(*flow_callables(fl, self.rate))
+        o = self.origin
         if cb in (None, NOCB):
             get_regime = None
         elif cb >= 100:  # late switch: the current regime for the first half of the interval, then cb - 100
-            r0, tmid = m.regime, t0 + 0.5 * dt
+            r0, tmid = m.regime, o + t0 + 0.5 * dt
             get_regime = lambda t, x: r0 if t < tmid else cb - 100  # noqa: E731
         else:
             get_regime = lambda t, x: cb  # noqa: E731
-        Fn = m.update_orientations(self.params(par), F, getL, (t0, t0 + dt, getx), get_regime=get_regime, **dict(self.solver_kw))
+        Fn = m.update_orientations(self.params(par), F, getL, (o + t0, o + t0 + dt, getx), get_regime=get_regime, **dict(self.solver_kw))
         return Fn, fl, dt
 
     def _advance(self, name, fl, dt):
@@ -450,11 +468,26 @@ class World:
     _UpdateRejected = _UpdateOk
     _UpdatePhaseAbsent = _UpdateOk
 
+    def _Clone(self, act):
+        import copy
+        import pickle
+
+        src, dst = act["m"], act["m2"]
+        m = self.minerals[src]
+        self.minerals[dst] = copy.deepcopy(m) if act["how"] == "deepcopy" else pickle.loads(pickle.dumps(m))
+        for book in (self.F, self.Fexp):
+            book[dst] = book[src].copy()
+        for book in (self.t, self.strain, self.nupd, self.seed):
+            book[dst] = book[src]
+        self.texture = getattr(self, "texture", {})
+        self.texture[dst] = self.texture.get(src)
+        self.refresh_fids(dst)
+
     def _UpdateFaulted(self, act):
         name = act["m"]
         m = self.minerals[name]
-        t0, dt = self.t[name], self.dt
-        getL, getx = flow_callables(act["fl"], self.rate)
+        t0, dt = self.origin + self.t[name], self.dt
+        getL, getx = self.clocked(*flow_callables(act["fl"], self.rate))
         L, X, R, fired = faulty_callables(act["fc"], getL, getx, m.regime, t0, dt)
         self.F_before_fault = self.Fexp[name].copy()
         Fin = self.Fexp[name].copy()
@@ -467,8 +500,8 @@ class World:
 
     def _UpdateAllFaulted(self, act):
         ms = act["ms"]
-        t0, dt = self.t[ms[0]], self.dt
-        getL, getx = flow_callables(act["fl"], self.rate)
+        t0, dt = self.origin + self.t[ms[0]], self.dt
+        getL, getx = self.clocked(*flow_callables(act["fl"], self.rate))
         L, X, R, fired = faulty_callables(act["fc"], getL, getx, self.minerals[ms[0]].regime, t0, dt)
         Fin = self.Fexp[ms[0]].copy()
         keep = Fin.copy()
@@ -483,7 +516,7 @@ class World:
         pd = self.pydrex
         ms = act["ms"]
         fl = act["fl"]
-        getL, getx = flow_callables(fl, self.rate)
+        getL, getx = self.clocked(*flow_callables(fl, self.rate))
         dt = self.dt
         t0 = self.t[ms[0]]
         lens = {x: len(self.minerals[x].orientations) for x in ms}
@@ -493,7 +526,7 @@ class World:
                 self.params(act["par"]),
                 self.Fexp[ms[0]].copy(),
                 getL,
-                (t0, t0 + dt, getx),
+                (self.origin + t0, self.origin + t0 + dt, getx),
                 **dict(self.solver_kw),
             )
         finally:
@@ -516,7 +549,7 @@ class World:
             getL = np.zeros((3, 3))          # an array instead of a callable
         else:
             getx = np.zeros(3)
-        m.update_orientations(make_params(par), self.Fexp[name].copy(), getL, (self.t[name], self.t[name] + self.dt, getx))
+        m.update_orientations(make_params(par), self.Fexp[name].copy(), getL, (self.origin + self.t[name], self.origin + self.t[name] + self.dt, getx))
 
     def _VoigtOk(self, act):
         ms = [self.minerals[x] for x in act["ms"]]
@@ -654,10 +687,12 @@ class World:
     def event(self, tid, act, err, lens_before):
         a = act["a"]
         ev = dict(tid=tid, ev=self.EVKIND.get(a, a), exc=err)
-        for k in ("m", "ms", "fl", "par", "cb", "f", "pf", "k", "which", "fc"):
+        for k in ("m", "ms", "fl", "par", "cb", "f", "pf", "k", "which", "fc", "m2", "how"):
             if k in act:
                 ev[k] = act[k]
         names = [act["m"]] if "m" in act else list(act.get("ms", []))
+        if a == "Clone":
+            names.append(act["m2"])
         obs = {}
         for name in names:
             if name in self.minerals:
@@ -830,9 +865,11 @@ def budget(n, strain):
     return 5e-3 + 1e-3 * (n + 2 * strain)
 
 
-def replay_behaviour(beh, scratch_dir, comparator, tid, events, n_override=None, rate=1.0, fcheck=True, dt=None, F0=None, solver_kw=None):
+def replay_behaviour(beh, scratch_dir, comparator, tid, events, n_override=None, rate=1.0, fcheck=True, dt=None, F0=None, solver_kw=None, origin=0.0, relative_to=None):
     """Run one behaviour (list of projected spec states, first = initial) on real objects."""
-    w = World(scratch_dir, n_override=n_override, rate=rate, dt=dt, F0=F0, solver_kw=solver_kw)
+    w = World(scratch_dir, n_override=n_override, rate=rate, dt=dt, F0=F0, solver_kw=solver_kw, origin=origin)
+    if relative_to is not None:
+        w.relative_to = relative_to
     # pre-built minerals: replay their construction, compare once against the initial state
     pre = beh[0].get("pre") or []
     for k, a in enumerate(pre):
@@ -933,23 +970,29 @@ TRACE_CLAUSES = {
     "C07": ("update-accepted-where-spec", "update-raised", "failed-update-touched-history", "wrong-error-class", "null-forcing-changed-content", "bad-arguments-not-refused", "bad-arguments-touched-history", "client-fault-swallowed", "client-fault-changed-the-mineral"),
     "C01": ("history-rewritten", "not-one-snapshot-per-update", "snapshot-shape", "snapshot-not-finite", "negative-volume", "volumes-do-not-sum-to-1", "orientation-entry-outside-unit-interval", "orientation-left-handed", "orthonormality-beyond-budget", "copies-of-one-grain-diverged"),
     "C17": ("loaded-state-differs-from-archive", "archive-differs-after-save", "corrupt-save-not-refused", "corrupt-save-wrote", "no-spec-action-LoadBadName"),
-    "C08": ("update-all-post-state-differs",),
+    "C08": ("update-all-post-state-differs", "copy-differs-from-its-original"),
     "C10": ("voigt-accepted-where-spec-rejects", "voigt-rejected-where-spec-accepts", "voigt-touched-a-mineral"),
 }
 
 
-def run_behaviours(chk, prop, behs, *, n_override=None, rate=1.0, fcheck=True, sig_extra=None, dt_of=None, F0_of=None, solver_kw=None):
+def run_behaviours(chk, prop, behs, *, n_override=None, rate=1.0, fcheck=True, sig_extra=None, dt_of=None, F0_of=None, solver_kw=None, origin_of=None):
     """Replay behaviours, validate the recorded calls with the trace spec, and report the
     mismatches / rejections whose clause belongs to `prop`.  Returns (events, comparator)."""
     from harness.common import scratch
 
     comp = Comparator()
     events = []
+    cwd0 = os.getcwd()
     with scratch() as d:
+      try:
+        # the client changes its working directory AFTER the library was imported; every third behaviour spells the
+        # archives it writes relative to it
+        os.chdir(d)
         for tid, b in enumerate(behs):
             sub = d / f"b{tid}"
             sub.mkdir()
-            replay_behaviour(b, sub, comp, tid, events, n_override=n_override, rate=rate, fcheck=fcheck, dt=dt_of(tid) if dt_of else None, F0=F0_of(tid) if F0_of else None, solver_kw=solver_kw)
+            replay_behaviour(b, sub, comp, tid, events, n_override=n_override, rate=rate, fcheck=fcheck, dt=dt_of(tid) if dt_of else None, F0=F0_of(tid) if F0_of else None, solver_kw=solver_kw, origin=origin_of(tid) if origin_of else 0.0,
+                             relative_to=str(d) if tid % 3 == 2 else None)
             chk.count(("beh", json.dumps([s["act"] for s in b[1:]], sort_keys=True)))
             import shutil
 
@@ -993,6 +1036,8 @@ def run_behaviours(chk, prop, behs, *, n_override=None, rate=1.0, fcheck=True, s
                 chk.violation(sig, f"trace spec rejected call {line} (trace {tid}, {ev['ev']}): {clause}", dict(event=ev))
             else:
                 chk.skip("foreign-reject-" + clause)
+      finally:
+        os.chdir(cwd0)
     for k, v in comp.notes.items():
         chk.cov.setdefault("replay_notes", {})[k] = chk.cov.get("replay_notes", {}).get(k, 0) + v
     return events, comp
